@@ -132,10 +132,13 @@ class Scatter(object):
         if struct is None:
             self.fig.canvas.draw()
             return
+        # (a catalog may cover only some of the structures, e.g. the leaves)
         if self.hub.select_subtree[selection_id]:
-            selected_indices = [self._idx_row[leaf.idx] for leaf in struct.descendants + [struct]]
+            selected_indices = [self._idx_row[leaf.idx] for leaf in struct.descendants + [struct]
+                                if leaf.idx in self._idx_row]
         else:
-            selected_indices = [self._idx_row[leaf.idx] for leaf in structures]
+            selected_indices = [self._idx_row[leaf.idx] for leaf in structures
+                                if leaf.idx in self._idx_row]
 
         self.lines2d[selection_id] = self.axes.plot(
             self.xdata[selected_indices],
